@@ -155,7 +155,7 @@ pub struct SqPackIndex {
     #[br(seek_before = SeekFrom::Start(sqpack_header.size.into()))]
     index_header: SqPackIndexHeader,
 
-    #[br(seek_before = SeekFrom::Start(index_header.file_descriptor.offset.into()), count = index_header.file_descriptor.size / 16, args { inner: (&index_header.index_type,) })]
+    #[br(seek_before = SeekFrom::Start(index_header.file_descriptor.offset.into()), count = index_header.file_descriptor.size / if index_header.index_type == IndexType::Index1 { 16 } else { 8 }, args { inner: (&index_header.index_type,) })]
     #[bw(args(&index_header.index_type,))]
     pub entries: Vec<FileEntry>,
 
